@@ -148,7 +148,7 @@ func init() {
 		Modes: func(tier string) []core.Mode {
 			return []core.Mode{{Name: "plain", Variant: "plain"}, {Name: "checkptr", Variant: "checkptr", CaseDiv: 4}}
 		},
-		NumCases: func(c *core.Ctx) int { return c.Pick(12000, 300000) },
+		NumCases: func(c *core.Ctx) int { return c.Pick(24000, 600000) },
 		Run:      runC13,
 		Floors: func(a *core.Agg) []string {
 			var u []string
